@@ -18,19 +18,19 @@ Ev == Log[l]
 Has == l <= Len(Log)
 IsEv(e) == Has /\ Log[l].e = e /\ l' = l + 1
 SetOf(s) == {s[i] : i \in 1..Len(s)}
-InPass == Has /\ Log[l].e \in {"Cb", "PassEnd"}
+InPass == Has /\ Log[l].e \in {"Cb", "PassEnd", "TimerCb"}
 Silent == UNCHANGED <<l, ended>>
 
 Blank ==
   /\ ev = [e \in E |-> NoEv] /\ recs = [r \in RID |-> DeadRec] /\ map = [fd \in FD |-> 0] /\ pool = <<>>
   /\ ready = [fd \in FD |-> {}] /\ closed = [fd \in FD |-> FALSE]
   /\ phase = "idle" /\ rlist = {} /\ cur = NoCur /\ copy = <<>> /\ run = 0 /\ opsLeft = 0 /\ passes = 0
-  /\ pins = {} /\ pollReady = [fd \in FD |-> {}] /\ cbEn = FALSE /\ viol = {}
+  /\ pins = {} /\ timer = "off" /\ bad = FALSE /\ pollReady = [fd \in FD |-> {}] /\ cbEn = FALSE /\ viol = {}
 BlankP ==
   /\ ev' = [e \in E |-> NoEv] /\ recs' = [r \in RID |-> DeadRec] /\ map' = [fd \in FD |-> 0] /\ pool' = <<>>
   /\ ready' = [fd \in FD |-> {}] /\ closed' = [fd \in FD |-> FALSE]
   /\ phase' = "idle" /\ rlist' = {} /\ cur' = NoCur /\ copy' = <<>> /\ run' = 0 /\ opsLeft' = 0 /\ passes' = 0
-  /\ pins' = {} /\ pollReady' = [fd \in FD |-> {}] /\ cbEn' = FALSE /\ viol' = {}
+  /\ pins' = {} /\ timer' = "off" /\ bad' = FALSE /\ pollReady' = [fd \in FD |-> {}] /\ cbEn' = FALSE /\ viol' = {}
 TInit == Blank /\ l = 1 /\ ended = 0
 
 TReset == IsEv("Reset") /\ BlankP /\ ended' = 0
@@ -39,13 +39,14 @@ TEnd == IsEv("End") /\ Idle /\ ended = passes /\ UNCHANGED <<vars, ended>>
 TNew ==
   /\ IsEv("New") /\ run = Ev.in /\ viol = {} /\ Ev.ev \in E /\ ev[Ev.ev].st # "alive"
   /\ ev' = [ev EXCEPT ![Ev.ev] = [st |-> "alive", fd |-> 0, mask |-> SetOf(Ev.m), os |-> Ev.os, en |-> FALSE]]
-  /\ UNCHANGED <<recs, map, pool, ready, closed, ended>> /\ UNCHANGED passVars
+  /\ UNCHANGED <<recs, map, pool, ready, closed, timer, ended>> /\ UNCHANGED passVars
 RetOf(op) == CASE op.k = "en" -> ev[op.e].fd # 0          \* enable() fails on an event that was never initialised
-               [] op.k = "init" -> ~ev[op.e].en           \* initialize() refuses while enabled
+               [] op.k \in {"init", "reinit"} -> ~ev[op.e].en   \* initialize() refuses while enabled
                [] OTHER -> TRUE
 TOp ==
   /\ IsEv("Op") /\ run = Ev.in
-  /\ LET op == Op(Ev.k, Ev.ev, Ev.fd) IN
+  /\ LET op == IF Ev.k = "init" THEN ROp(Ev.ev, Ev.fd, SetOf(Ev.m), Ev.os)     \* every initialize() is logged with conditions and mode
+                ELSE Op(Ev.k, Ev.ev, Ev.fd) IN
        /\ Ev.ret = RetOf(op)
        /\ IF run = 0 THEN MainOp(op) ELSE CbOp(op)
   /\ UNCHANGED ended
@@ -55,13 +56,15 @@ TCb ==                                            \* a callback: the dispatcher 
   /\ run' = Ev.ev /\ cur.mask = SetOf(Ev.m) /\ cbEn' = Ev.en
   /\ UNCHANGED ended
 TRet == IsEv("Ret") /\ run = Ev.ev /\ CbReturn /\ UNCHANGED ended
+TTimer == IsEv("TimerCb") /\ Ev.p = passes /\ TimerCb /\ UNCHANGED ended      \* the timer's callback (before any descriptor is served)
+TTimerRet == IsEv("TimerRet") /\ run = TIMER /\ CbReturn /\ UNCHANGED ended
 Observed(st) ==                                   \* existence and isEnabled() of every slot (not compared on closed descriptors)
   \A i \in 1..Len(st) :
      /\ (ev'[i].st = "alive") = st[i].a
      /\ ev'[i].st = "alive" /\ (ev'[i].fd = 0 \/ ~closed'[ev'[i].fd]) => ev'[i].en = st[i].en
 TPassEnd ==
   /\ IsEv("PassEnd") /\ Ev.p = passes /\ ended = passes - 1 /\ ended' = passes
-  /\ IF phase = "pass" THEN EndPass ELSE Idle /\ UNCHANGED vars     \* (idle: the select pass that only found invalid descriptors)
+  /\ EndPass
   /\ Observed(Ev.st)
 \* silent steps of the loop
 SPoll == InPass /\ Log[l].p = passes + 1 /\ ended = passes /\ Poll /\ Silent
@@ -69,7 +72,7 @@ SNextFd == InPass /\ DoNextFd /\ Silent
 SSkip == InPass /\ (\E e \in E : Sub(e) /\ run' = 0) /\ Silent
 SFinish == InPass /\ FinishFd /\ Silent
 
-TNext == TReset \/ TBegin \/ TEnd \/ TNew \/ TOp \/ TReady \/ TCb \/ TRet \/ TPassEnd \/ SPoll \/ SNextFd \/ SSkip \/ SFinish
+TNext == TReset \/ TBegin \/ TEnd \/ TNew \/ TOp \/ TReady \/ TCb \/ TRet \/ TTimer \/ TTimerRet \/ TPassEnd \/ SPoll \/ SNextFd \/ SSkip \/ SFinish
 TSpec == TInit /\ [][TNext]_tvars
 
 Progress == TLCSet(42, IF l > TLCGet(42) THEN l ELSE TLCGet(42))
